@@ -33,6 +33,7 @@ inductive Err
   | success | blockNotReady | scanTimeout | tooManyMatches | callbackError | callbackRequired
   | exec (code : Nat)     -- any other error raised by rule evaluation (e.g. ERROR_EXEC_STACK_OVERFLOW)
   | iter (code : Nat)     -- any other error left in `iterator->last_error`
+  | couldNotAttach        -- yr_process_open_iterator failed (scan_proc)
   | verify (code : Nat)   -- error raised while verifying a candidate in the block loop (e.g. ERROR_TOO_MANY_RE_FIBERS)
 deriving DecidableEq, Repr
 
@@ -76,6 +77,8 @@ structure Settings where
   reportNotMatching : Bool
   timeout : Nat            -- 0 = none
   hasCallback : Bool
+  fastMode : Bool := false        -- SCAN_FLAGS_FAST_MODE
+  processMemory : Bool := false   -- SCAN_FLAGS_PROCESS_MEMORY (SCAN_FLAGS_NO_TRYCATCH has no effect on the model)
 deriving DecidableEq, Repr
 
 structure Rule where
@@ -94,6 +97,7 @@ structure View where
   ruleFlags : List Nat
   modules : List (Nat × Option Block)
   stack : Nat              -- YR_CONFIG_STACK_SIZE in force
+  processMemory : Bool     -- scan flags seen by the modules
 
 /-- A rule condition as the sequence of things it asks of its environment.
     `walk stop k`: `iterator->first()`, then `next()` until a block satisfies `stop` or the iterator
@@ -111,10 +115,12 @@ structure Params where
   strRule : Nat → Nat                      -- index of the rule owning a string
   maxMatches : Nat                         -- YR_MAX_STRING_MATCHES
   cands : Nat → List Cand                  -- by data key, in discovery order
-  ep : Nat → Nat → Option Nat              -- yr_get_entry_point_offset(data, size)
+  ep : Bool → Nat → Nat → Nat → Option Nat -- process-memory flag, data, size, base: yr_get_entry_point_offset(data, size),
+                                           -- with the flag yr_get_entry_point_address(data, size, base)
+  singleMatch : Nat → Bool                 -- STRING_FLAGS_SINGLE_MATCH (only used as `$a`): fast mode keeps one match
   scanErr : Nat → Option Nat               -- by data key: verification in this block fails with that error code
   cond : Nat → View → Prog
-  modParse : Nat → Option (Block → Bool)   -- none: the module's load does not touch the blocks
+  modParse : Bool → Nat → Option (Block → Bool)   -- by process-memory flag and module; none: load does not touch the blocks
 
 structure Variant where
   resetEntryPoint : Bool   -- fresh scan sets entry_point = YR_UNDEFINED
@@ -239,21 +245,22 @@ def It.first (it : It) (w : World) : Option Block × It × World := It.next { it
 /-! ### block phase -/
 
 /-- all candidates of one block through `yr_scan_verify_match` / `_yr_scan_match_callback` -/
-def addCands (P : Params) (cb : Nat → CbRet) (b : Block) : List Cand → Core → World → Core × World × List Msg × Err
+def addCands (P : Params) (cb : Nat → CbRet) (fast : Bool) (b : Block) : List Cand → Core → World → Core × World × List Msg × Err
   | [], c, w => (c, w, [], .success)
   | k :: ks, c, w =>
-    if k.str ∈ c.strDisabled then addCands P cb b ks c w
+    if k.str ∈ c.strDisabled then addCands P cb fast b ks c w
+    else if fast && P.singleMatch k.str && !(tget c.found k.str).isEmpty then addCands P cb fast b ks c w
     else
       let c := { c with reqEval := setIns (P.strRule k.str) c.reqEval }
       if (tget c.found k.str).length = P.maxMatches then
         let (r, w) := call cb w
         match r with
         | .cont =>
-          let (c', w', ms, e) := addCands P cb b ks { c with strDisabled := setIns k.str c.strDisabled } w
+          let (c', w', ms, e) := addCands P cb fast b ks { c with strDisabled := setIns k.str c.strDisabled } w
           (c', w', .tooManyMatches k.str :: ms, e)
         | _ => (c, w, [.tooManyMatches k.str], .tooManyMatches)
       else
-        addCands P cb b ks { c with found := tset c.found k.str (insMatch ⟨b.base, k.off, k.len⟩ (tget c.found k.str)) } w
+        addCands P cb fast b ks { c with found := tset c.found k.str (insMatch ⟨b.base, k.off, k.len⟩ (tget c.found k.str)) } w
 
 /-- loop body for one block returned by the iterator (:522-549) -/
 def scanBlock (P : Params) (cb : Nat → CbRet) (set : Settings) (b : Block) (c : Core) (w : World) :
@@ -261,12 +268,12 @@ def scanBlock (P : Params) (cb : Nat → CbRet) (set : Settings) (b : Block) (c 
   match b.data with
   | none => (c, w, [], .success)
   | some d =>
-    let c := if c.entryPoint.isNone then { c with entryPoint := P.ep d b.size } else c
+    let c := if c.entryPoint.isNone then { c with entryPoint := P.ep set.processMemory d b.size b.base } else c
     if decide (b.size > 0) && timedOut set c w then (c, w, [], .scanTimeout)
     else
       match P.scanErr d with
       | some code => (c, w, [], .verify code)      -- `_yr_scanner_scan_mem_block` returns the verifier's error (:522-546)
-      | none => addCands P cb b (P.cands d) c w
+      | none => addCands P cb set.fastMode b (P.cands d) c w
 
 structure LoopOut where
   core : Core
@@ -333,9 +340,9 @@ def runProg (set : Settings) (c : Core) : Prog → It → World → EvalRes × I
     let (seen, it', w') := it.walk stop w
     runProg set c (k seen) it' w'
 
-def Core.view (c : Core) (fs : Option Nat) (stack : Nat) : View :=
+def Core.view (c : Core) (fs : Option Nat) (stack : Nat) (pm : Bool) : View :=
   { found := c.found, fileSize := fs, entryPoint := c.entryPoint, ruleFlags := c.ruleFlags,
-    modules := c.modules, stack := stack }
+    modules := c.modules, stack := stack, processMemory := pm }
 
 structure ExecOut where
   core : Core
@@ -345,16 +352,16 @@ structure ExecOut where
   result : Err
 
 /-- `yr_modules_load` for the modules of the OP_IMPORT instructions, in order -/
-def loadModules (P : Params) (cb : Nat → CbRet) : List Nat → Core → It → World → ExecOut
+def loadModules (P : Params) (cb : Nat → CbRet) (pm : Bool) : List Nat → Core → It → World → ExecOut
   | [], c, it, w => ⟨c, it, w, [], .success⟩
   | m :: ms, c, it, w =>
-    if c.modules.any (fun p => p.1 == m) then loadModules P cb ms c it w
+    if c.modules.any (fun p => p.1 == m) then loadModules P cb pm ms c it w
     else
       let (r1, w1) := call cb w
       if r1 = .error then ⟨c, it, w1, [.importModule m], .callbackError⟩
       else
         let (parsed, it2, w2) :=
-          match P.modParse m with
+          match P.modParse pm m with
           | none => ((none : Option Block), it, w1)
           | some f =>
             let (seen, it', w') := it.walk f w1
@@ -363,7 +370,7 @@ def loadModules (P : Params) (cb : Nat → CbRet) : List Nat → Core → It →
         let (r2, w3) := call cb w2
         if r2 = .error then ⟨c2, it2, w3, [.importModule m, .moduleImported m], .callbackError⟩
         else
-          let o := loadModules P cb ms c2 it2 w3
+          let o := loadModules P cb pm ms c2 it2 w3
           { o with msgs := .importModule m :: .moduleImported m :: o.msgs }
 
 /-- the per-rule code: OP_INIT_RULE … OP_MATCH_RULE -/
@@ -372,7 +379,7 @@ def execRules (P : Params) (set : Settings) (fs : Option Nat) (stack : Nat) :
   | [], c, it, w => (c, it, w, .success)
   | (i, r) :: rs, c, it, w =>
     if i ∈ c.reqEval then
-      match runProg set c (P.cond i (c.view fs stack)) it w with
+      match runProg set c (P.cond i (c.view fs stack set.processMemory)) it w with
       | (.err e, it', w') => (c, it', w', e)
       | (.ok v, it', w') =>
         let c' := if v then { c with ruleFlags := setIns i c.ruleFlags }
@@ -387,7 +394,7 @@ def enum {α : Type} (l : List α) : List (Nat × α) := (List.range l.length).z
 /-- `yr_execute_code`: imports, rules, then `yr_modules_unload_all` whatever happened -/
 def exec (P : Params) (cb : Nat → CbRet) (set : Settings) (fs : Option Nat) (stack : Nat)
     (c : Core) (it : It) (w : World) : ExecOut :=
-  let o := loadModules P cb P.imports c it w
+  let o := loadModules P cb set.processMemory P.imports c it w
   if o.result ≠ .success then { o with core := { o.core with modules := [] } }
   else
     let (c', it', w', e) := execRules P set fs stack (enum P.rules) o.core o.it o.world
